@@ -454,7 +454,7 @@ def plan(tier, seed):
     rz = ["UTC", "Europe/Paris", "America/St_Johns", "Asia/Kathmandu", "America/Argentina/Buenos_Aires", 19800, -12600, -60, None]
     for z in rz:
         for tp in TIME_PARTS:
-            shards.append({"kind": "roundtrip", "zones": [z], "dates": dates[::2] if not thorough else dates,
+            shards.append({"kind": "roundtrip", "zones": [z], "dates": dates,
                            "time_parts": [tp], "locales": ["en"] if not thorough else ["en", "de", "pl"]})
     for month in range(1, 13):
         shards.append({"kind": "locales", "month": month})
